@@ -4,6 +4,7 @@
    Faithful to the code as it is, including what looks wrong.  Flag tables come from Gen/Tables.v.
    The recursive analysis of an inner command string is an oracle (Section variable). *)
 From DippyV Require Import Base.Str Base.Verdict Gen.Tables Model.BashQuote.
+From DippyV Require Model.Walker.
 
 Definition starts (p : string) (t : str) : bool := prefixb (s2l p) t.
 Definition is (p : string) (t : str) : bool := str_eqb t (s2l p).
@@ -101,11 +102,15 @@ Fixpoint env_cluster (cs : str) : option (N * str) :=
   | [] => None
   | c :: r => if mem_str [c] ENV_SHORT_WITH_ARG then Some (c, r) else env_cluster r
   end.
-Fixpoint env_scan (l : list str) : hres :=        (* l = tokens[i:] *)
+(* kept: the NAME=value arguments that decide what the inner command runs (allowlists.sets_execution_var: PATH,
+   LD_PRELOAD, ...), in order; they stay in front of the delegated command, every other assignment is dropped.
+   The -S / --split-string paths delegate the string alone (as the code does). *)
+Definition sets_exec (t : str) : bool := Walker.sets_execution_var t.
+Fixpoint env_scan (kept : list str) (l : list str) : hres :=        (* l = tokens[i:] *)
   match l with
   | [] => HAllow
   | t :: r =>
-      if is "--" t then match r with [] => HAllow | _ => HWords [r] false end
+      if is "--" t then match r with [] => HAllow | _ => HWords [kept ++ r] false end
       else if starts "--" t then
         let '(name, v) := partition_eq (skipn 2 t) in
         match long_names ENV_LONG_OPTIONS name with
@@ -113,27 +118,27 @@ Fixpoint env_scan (l : list str) : hres :=        (* l = tokens[i:] *)
             if mem_str nm ENV_LONG_WITH_ARG && is_none v then
               match r with
               | [] => HAsk
-              | value :: r' => if is "split-string" nm then HString (join [32] (value :: r')) else env_scan r'
+              | value :: r' => if is "split-string" nm then HString (join [32] (value :: r')) else env_scan kept r'
               end
             else if is "split-string" nm then HString (join [32] (oval v :: r))
-            else env_scan r
+            else env_scan kept r
         | _ => HAsk
         end
       else if dash t && Nat.ltb 1 (length t) then
         match env_cluster (tl' t) with
-        | None => env_scan r
+        | None => env_scan kept r
         | Some (c, []) =>
             match r with
             | [] => HAsk
-            | value :: r' => if N.eqb c 83 then HString (join [32] (value :: r')) else env_scan r'
+            | value :: r' => if N.eqb c 83 then HString (join [32] (value :: r')) else env_scan kept r'
             end
-        | Some (c, value) => if N.eqb c 83 then HString (join [32] (value :: r)) else env_scan r
+        | Some (c, value) => if N.eqb c 83 then HString (join [32] (value :: r)) else env_scan kept r
         end
-      else if is "-" t then env_scan r
-      else if has_eq t then env_scan r
-      else HWords [l] false
+      else if is "-" t then env_scan kept r
+      else if has_eq t then env_scan (if sets_exec t then kept ++ [t] else kept) r
+      else HWords [kept ++ l] false
   end.
-Definition env_h (tokens : list str) : hres := env_scan (tl' tokens).
+Definition env_h (tokens : list str) : hres := env_scan [] (tl' tokens).
 
 (* ------------------------------------------------------------------ cli/xargs.py *)
 Definition INTERACTIVE : str := s2l "--interactive".
